@@ -10,7 +10,10 @@ P2  named tuples are erased: `Pair = namedtuple('Pair', 'task machine')`, `class
     (no class of the package stores or defines an attribute of that name), or when the object is
     known locally to be such a tuple (bound from the constructor, or iterating a list built from
     constructor calls).
-Both are the identity on the pinned tree (it has neither)."""
+P2d a `dict` subclass whose constructor only fills the mapping (`super().__init__(a=0, b=n)`): its
+    constructor calls become the dict display itself (the methods stay; they are new methods and
+    are judged where they are called, with `self[...]` standing for the mapping).
+All are the identity on the pinned tree (it has none of these)."""
 import ast
 import copy
 
@@ -440,3 +443,93 @@ def erase_named_tuples(trees):
         Erase().visit(t)
         ast.fix_missing_locations(t)
     return len(types)
+
+
+# ------------------------------------------------------------------------------- P2d
+def erase_dict_ctors(trees):
+    """`class Ledger(dict): def __init__(self, n): super().__init__(free=n, busy=0)` makes
+    `Ledger(k)` the display `{'free': k, 'busy': 0}`.  Returns the number of calls rewritten."""
+    ctors = {}
+    for t in trees:
+        for c in t.body:
+            if not (isinstance(c, ast.ClassDef) and len(c.bases) == 1 and isinstance(c.bases[0], ast.Name)
+                    and c.bases[0].id == 'dict' and not c.keywords):
+                continue
+            init = [b for b in c.body if isinstance(b, ast.FunctionDef) and b.name == '__init__']
+            if len(init) != 1:
+                continue
+            fn = init[0]
+            a = fn.args
+            if a.vararg or a.kwarg or a.posonlyargs or a.kwonlyargs or not a.args:
+                continue
+            body = [st for st in fn.body if not (isinstance(st, ast.Expr) and isinstance(st.value, ast.Constant))]
+            if len(body) != 1 or not isinstance(body[0], ast.Expr) or not isinstance(body[0].value, ast.Call):
+                continue
+            call = body[0].value
+            f_ = call.func
+            args = list(call.args)
+            if isinstance(f_, ast.Attribute) and f_.attr == '__init__' and isinstance(f_.value, ast.Call) \
+                    and isinstance(f_.value.func, ast.Name) and f_.value.func.id == 'super':
+                pass
+            elif isinstance(f_, ast.Attribute) and f_.attr == '__init__' and isinstance(f_.value, ast.Name) \
+                    and f_.value.id == 'dict' and args and isinstance(args[0], ast.Name) and args[0].id == a.args[0].arg:
+                args = args[1:]
+            else:
+                continue
+            keys, vals = [], []
+            if len(args) == 1 and isinstance(args[0], ast.Dict) and all(k is not None for k in args[0].keys):
+                keys, vals = list(args[0].keys), list(args[0].values)
+            elif args:
+                continue
+            if any(k.arg is None for k in call.keywords):
+                continue
+            for k in call.keywords:
+                keys.append(ast.Constant(value=k.arg))
+                vals.append(k.value)
+            if not keys:
+                continue
+            params = [x.arg for x in a.args[1:]]
+            defaults = dict(zip(params[len(params) - len(a.defaults):], a.defaults))
+            ctors[c.name] = (params, defaults, keys, vals)
+    if not ctors:
+        return 0
+    n = [0]
+
+    class Subst(ast.NodeTransformer):
+        def __init__(self, env):
+            self.env = env
+
+        def visit_Name(self, node):
+            if isinstance(node.ctx, ast.Load) and node.id in self.env:
+                return copy.deepcopy(self.env[node.id])
+            return node
+
+        def visit_Lambda(self, node):
+            return node
+
+    class Erase(ast.NodeTransformer):
+        def visit_Call(self, node):
+            self.generic_visit(node)
+            if not (isinstance(node.func, ast.Name) and node.func.id in ctors):
+                return node
+            params, defaults, keys, vals = ctors[node.func.id]
+            if any(isinstance(x, ast.Starred) for x in node.args) or any(k.arg is None for k in node.keywords) \
+                    or len(node.args) > len(params):
+                return node
+            env = dict(zip(params, node.args))
+            for k in node.keywords:
+                if k.arg not in params or k.arg in env:
+                    return node
+                env[k.arg] = k.value
+            for p_ in params:
+                if p_ not in env:
+                    if p_ not in defaults:
+                        return node
+                    env[p_] = defaults[p_]
+            d = ast.Dict(keys=[copy.deepcopy(k) for k in keys],
+                         values=[Subst(env).visit(copy.deepcopy(v)) for v in vals])
+            n[0] += 1
+            return ast.fix_missing_locations(ast.copy_location(d, node))
+    for t in trees:
+        Erase().visit(t)
+    return n[0]
